@@ -85,6 +85,10 @@ func corpus() []Case {
 		{Kind: "serve", Seq: []string{"@rcpt-send-held", rcvd3, `<message type='chat'><body>probe</body></message>`, "@out-release", canon["ping"][0]}, Labels: []string{"corpus/receipts-repeated-while-pending"}},
 		{Kind: "serve", Seq: []string{"@rcpt-send", rcvd3, rcvd1, rcvd1, rcvd1, canon["ping"][0]}, Labels: []string{"corpus/receipts-repeated"}},
 		{Kind: "serve", Seq: []string{rcvd3, rcvd1, rcvd1, "@rcpt-send", "@rcpt-cancel", rcvd1, rcvd3}, Labels: []string{"corpus/receipts-repeated-none-pending"}},
+		// handlers constructed without their optional callbacks; receipts nobody waits for, several in a row
+		{Kind: "serve", NilCB: true, Seq: []string{rcvd1, rcvd1, rcvd1, canon["ping"][0]}, Labels: []string{"corpus/receipts-unmatched-no-callback"}},
+		{Kind: "serve", NilCB: true, Seq: []string{canon["receipts"][2], rcvd3, "@rcpt-send", rcvd1, rcvd1, canon["receipts"][0]}, Labels: []string{"corpus/receipts-unmatched-no-callback-2"}},
+		{Kind: "serve", NilCB: true, Seq: []string{"@muc-join", canon["muc"][0], canon["muc"][1], canon["muc"][3], canon["muc"][2], canon["history"][1], canon["blocklist"][0], canon["blocklist"][1], canon["blocklist"][3], canon["time"][0]}, Labels: []string{"corpus/no-callbacks-tour"}},
 		// history and receipts: iterators and pending sends opened and given up between stanzas
 		{Kind: "serve", Seq: []string{"@hist-fetch-consume", canon["history"][0], "@hist-close", canon["history"][0], canon["history"][1]}, Labels: []string{"corpus/history-close-between"}},
 		{Kind: "serve", Seq: []string{"@rcpt-send", "@rcpt-cancel", canon["receipts"][1], "@rcpt-send", canon["receipts"][1], canon["receipts"][1]}, Labels: []string{"corpus/receipts-cancel-between"}},
@@ -100,6 +104,10 @@ func corpus() []Case {
 		{Kind: "helper", Helper: "disco-items", Replies: []string{canonReply["disco-items"][1], canonReply["disco-items"][0]}, Labels: []string{"corpus/items-two-pages"}},
 		{Kind: "helper", Helper: "upload", Replies: txt(canonReply["upload"][1]), Labels: []string{"corpus/upload-no-put-url"}},
 		{Kind: "helper", Helper: "ping", Replies: txt(errReply), Labels: []string{"corpus/ping-unavailable"}},
+		// a form fetched from the peer and submitted again: text-multi values ending in CR, LF, CR LF
+		{Kind: "helper", Helper: "muc-config", Replies: txt(strings.Replace(canonReply["muc-config"][0], "second line", "second line&#13;", 1)), Labels: []string{"corpus/form-value-ends-in-cr"}},
+		{Kind: "helper", Helper: "muc-config", Replies: txt(strings.Replace(canonReply["muc-config"][0], "second line", "a&#13;\nb\n", 1)), Labels: []string{"corpus/form-value-crlf"}},
+		{Kind: "helper", Helper: "pubsub-config", Replies: txt(strings.Replace(canonReply["pubsub-config"][0], "second line", "&#13;", 1)), Labels: []string{"corpus/form-value-lone-cr"}},
 		{Kind: "func", Func: "carbons-unwrap", Seq: txt(canon["carbons"][0]), Labels: []string{"corpus/carbons-unwrap"}},
 		{Kind: "func", Func: "forward-unwrap", Seq: txt(canon["carbons"][1]), Labels: []string{"corpus/forward-unwrap"}},
 	}
@@ -150,7 +158,7 @@ func genCases(o hx.Opts) []Case {
 	}
 	setups := [][]string{nil, nil, nil, {"hist-consumer"}, {"hist-consumer", "ibb-listen"}, {"ibb-listen", "receipt-pending"}, {"muc-join"}, {"hist-consumer", "ibb-listen", "receipt-pending", "muc-join"}}
 	for i := 0; i < nSeq; i++ {
-		c := Case{Kind: "serve", End: "close", Setup: setups[r.Intn(len(setups))], Bare: r.Chance(3, 10)}
+		c := Case{Kind: "serve", End: "close", Setup: setups[r.Intn(len(setups))], Bare: r.Chance(3, 10), NilCB: r.Chance(3, 10)}
 		if r.Chance(1, 5) {
 			c.End = "eof"
 		}
